@@ -39,13 +39,13 @@ X_All(S, e, T) ==
                    : k \in DOMAIN T.feed.rounds }
         ELSE {})
   \cup (IF e.kind = "tx" /\ ~e.res.ok THEN Tag(e.dpre = e.dpost, "X16.failed_tx_changes_nothing") ELSE {})
+  \cup UNION { Tag(T.vamm[v].st.x * T.vamm[v].st.y >= S.vamm[v].st.x * S.vamm[v].st.y, "X19.exact_product_monotone") : v \in Vs(T) }
   \cup (IF e.kind = "block" THEN Tag(T.blk.h > S.blk.h /\ T.blk.t > S.blk.t, "X17.time_advances") ELSE {})
   \* link to spec/proofs/CurveLemma.tla: after a single swap the untouched reserve is Corrected(k, D, moved)
   \cup (IF e.kind = "tx" /\ e.res.ok /\ Len(e.swaps) = 1 /\ e.swaps[1].vamm \in Vs(S)
         THEN LET v == e.swaps[1].vamm
-                 k == K(S.vamm[v])
-                 D == S.vamm[v].cfg.D
-                 Corr(m) == IF (k * D) % m # 0 THEN ((k * D) \div m) + 1 ELSE (k * D) \div m
+                 P == S.vamm[v].st.x * S.vamm[v].st.y
+                 Corr(m) == IF P % m # 0 THEN (P \div m) + 1 ELSE P \div m
              IN IF e.swaps[1].quote = 0 \/ e.swaps[1].base = 0 THEN {}
                 ELSE IF e.swaps[1].type = "input"
                 THEN Tag(T.vamm[v].st.y = Corr(T.vamm[v].st.x), "X18.input_swap_leaves_ceiling")
